@@ -431,27 +431,35 @@ def h_mol2(ctx, natom=3):
 
 
 # ------------------------------------------------------------------------------------------ XYZ / EXTXYZ
-def h_xyz(ctx, nframes=2, ext=False, same_title=False):
+def h_xyz(ctx, nframes=2, ext=False, same_title=False, every_element=False):
     import iodata.api as api
     mods = rt._fmt_modules("extxyz" if ext else "xyz") + rt._fmt_modules("xyz")
+    syms = ["O", "H", "Cl"]
+    z = {"O": 8, "H": 1, "Cl": 17}
+    if every_element:
+        # symbols from the independent table (specs/periodic_ref.py), three consecutive elements per path
+        k = ctx.choice(list(range(1, 119, 3)), label="Z")
+        zs = [min(k + i, 118) for i in range(3)]
+        syms = [L.NUM2SYM[v] for v in zs]
+        z = dict(zip(syms, zs))
     with stubbed(*mods):
         frames = []
         for f in range(nframes):
             atoms = []
             for i in range(2 if same_title else 1 + (f + 1) % 3):
-                sym = ["O", "H", "Cl"][i % 3]
-                x, y, z = (ctx.real(f"f{f}x{i}_{k}", lo=-900, hi=900, default=1.5 * k - i) for k in range(3))
+                sym = syms[i % 3]
+                x, y, zc = (ctx.real(f"f{f}x{i}_{k}", lo=-900, hi=900, default=1.5 * k - i) for k in range(3))
                 if ext:
                     m = ctx.real(f"f{f}m{i}", lo=0.5, hi=300, default=15.999)
                     fx, fy, fz = (ctx.real(f"f{f}F{i}_{k}", lo=-90, hi=90, default=0.01 * k) for k in range(3))
                     if same_title:
                         # two user-defined per-atom columns whose values differ from frame to frame
-                        atoms.append((sym, x, y, z, m, fx, fy, fz, ctx.real(f"f{f}q{i}", lo=-9, hi=9, default=0.1 * f - 0.3 * i),
+                        atoms.append((sym, x, y, zc, m, fx, fy, fz, ctx.real(f"f{f}q{i}", lo=-9, hi=9, default=0.1 * f - 0.3 * i),
                                       7 * f + i))
                     else:
-                        atoms.append((sym, x, y, z, m, fx, fy, fz))
+                        atoms.append((sym, x, y, zc, m, fx, fy, fz))
                 else:
-                    atoms.append((sym, x, y, z))
+                    atoms.append((sym, x, y, zc))
             fr = dict(title=f"frame {f}", atoms=atoms)
             if ext:
                 fr["lattice"] = [[ctx.real(f"f{f}L{r}{c}", lo=-90, hi=90, default=(5.0 if r == c else 0.0)) for c in range(3)]
@@ -472,7 +480,6 @@ def h_xyz(ctx, nframes=2, ext=False, same_title=False):
         if err is not None:
             return
         ctx.oblige("one-object-per-frame", len(ds) == nframes, cls=cls, detail=str(len(ds)))
-        z = {"O": 8, "H": 1, "Cl": 17}
         for d, fr in zip(ds, frames):
             _cmp(ctx, "atnums", np.asarray(d.atnums), np.array([z[a[0]] for a in fr["atoms"]]), cls)
             want = _arr(ctx, [[a[1] * L.ANGSTROM, a[2] * L.ANGSTROM, a[3] * L.ANGSTROM] for a in fr["atoms"]])
@@ -1052,6 +1059,7 @@ def jobs(tier):
     for n in (1, 3):
         out.append(job("C03", f"mol2[n={n}]", M, "h_mol2", dict(natom=n), max_validate=4))
     out.append(job("C03", "xyz", M, "h_xyz", dict(nframes=3, ext=False), max_validate=3))
+    out.append(job("C03", "xyz[every-element]", M, "h_xyz", dict(nframes=2, ext=False, every_element=True), max_validate=3, max_paths=100))
     out.append(job("C03", "extxyz", M, "h_xyz", dict(nframes=2, ext=True), max_validate=3))
     out.append(job("C03", "extxyz[identical titles, user columns]", M, "h_xyz", dict(nframes=3, ext=True, same_title=True), max_validate=3))
     for kind in ("poscar", "chgcar", "locpot"):
